@@ -9,19 +9,31 @@ let ev_s = function
   | CCRemoved -> "RM"
   | CCFull t -> Printf.sprintf "FULL%d" (int_of_nat t)
   | CCDisc t -> Printf.sprintf "DISC%d" (int_of_nat t)
+  | CCSentOk t -> Printf.sprintf "OK%d" (int_of_nat t)
 
 let prog_of tid s =
   let k = ref 0 in
   List.filter_map (function
       | 's' -> let v = tid * 100 + !k in incr k; Some (CSend (n_of_int v))
+      | 'b' -> let v = tid * 100 + !k in incr k; Some (CSendB (n_of_int v))
       | 'c' -> Some CClone | 'x' -> Some CDropS | _ -> None)
     (List.init (String.length s) (String.get s))
 
 let has_step (s : ccst) k =
   if k = 0 then (match s.cloop.cl_stage, s.cloop.cl_disp with CLIdle, O -> false | _ -> true)
   else match List.nth_opt s.cthr (k - 1) with
-    | Some t -> (match t.ct_stage with CIdle -> t.ct_ops <> [] | _ -> true)
+    | Some t -> (match t.ct_stage with CIdle -> t.ct_ops <> [] | CBlocked _ -> false | _ -> true)
     | None -> false
+
+(* a sender blocked on the full queue goes on as soon as there is room (the harness waits for it after every step) *)
+let rec settle (s : ccst) : ccst =
+  let rec find i = function
+    | [] -> None
+    | t :: r -> (match t.ct_stage with CBlocked _ when not (cc_full s && s.creg) -> Some i | _ -> find (i + 1) r) in
+  match find 0 s.cthr with
+  | Some i -> settle (cc_step s (nat_of_int (i + 1)))
+  | None -> s
+let blocked_left (s : ccst) = List.exists (fun t -> match t.ct_stage with CBlocked _ -> true | _ -> false) s.cthr
 
 let handle line =
   match String.split_on_char '|' line with
@@ -34,17 +46,17 @@ let handle line =
            let n = List.length progs + 1 in
            let b = if bound < 0 then None else Some (n_of_int bound) in
            let s = ref (cc_init b progs (nat_of_int (nd + 4))) in
-           List.iter (fun k -> if k < n then s := cc_step !s (nat_of_int k)) sched;
+           List.iter (fun k -> if k < n then s := settle (cc_step !s (nat_of_int k))) sched;
            let guard = ref 0 in
            let continue = ref true in
            while !continue && !guard < 20000 do
              incr guard;
              let order = (List.init (n - 1) (fun i -> i + 1)) @ [0] in
              match List.find_opt (fun k -> has_step !s k) order with
-             | Some k -> s := cc_step !s (nat_of_int k)
+             | Some k -> s := settle (cc_step !s (nat_of_int k))
              | None -> continue := false
            done;
-           String.concat " " (List.rev_map ev_s !s.ctr_log)
+           String.concat " " (List.rev_map ev_s !s.ctr_log) ^ (if blocked_left !s then " HANG" else "")
        | _ -> "BAD")
   | _ -> "BAD"
 
